@@ -46,6 +46,14 @@ func commonChecks(c *Chain, out *[]string) {
 		if i+1 < len(reach) && reach[i+1].fe == r.fe {
 			continue
 		}
+		// a fork that lasts a single epoch can stay without blocks when its proposers are slashed
+		if i+1 < len(reach) && reach[i+1].fe == r.fe+1 && c.Stats.Get("slots_skipped_slashed_proposer") > 0 {
+			continue
+		}
+		// (with SHUFFLE_ROUND_COUNT 0 one slashed validator is the proposer of every slot until it exits)
+		if c.Stats.Get("slots_skipped_slashed_proposer") >= int(sp.SLOTS_PER_EPOCH) {
+			continue
+		}
 		expect(c.Stats.Get(r.f.String()+".blocks") > 0, out, "no %s block although the fork epoch %d is inside the chain", r.f, r.fe)
 	}
 	expect(c.Stats.Get("honest_rejected") == 0, out, "honest blocks were rejected")
@@ -147,10 +155,11 @@ func init() {
 	})
 
 	register(&Scenario{
-		Name:  "mass_slashing",
-		Knobs: SpecKnobs{AllForksInside: true, SmallChurn: true, ShortSlashings: true},
-		Gen:   GenesisKnobs{MinVals: 24, MaxVals: 96, Eth1Share: 30, AboveShare: 10, BelowShare: 5},
-		Rates: OpRates{Exit: 2, BLSChange: 5},
+		Name:      "mass_slashing",
+		Knobs:     SpecKnobs{AllForksInside: true, SmallChurn: true, PenaltyWhileActive: true},
+		MinEpochs: 11,
+		Gen:       GenesisKnobs{MinVals: 24, MaxVals: 96, Eth1Share: 30, AboveShare: 10, BelowShare: 5},
+		Rates:     OpRates{Exit: 2, BLSChange: 5},
 		Init: func(c *Chain) {
 			c.Vars["slash_epoch"] = 1
 			c.Vars["slash_target"] = len(c.Vals)/3 + c.Rng.Intn(len(c.Vals)/8+1)
@@ -166,7 +175,9 @@ func init() {
 			// advances twice inside the block
 			size := 2 + c.Rng.Intn(8)
 			if c.Vars["big_done"] == 0 {
-				size = 2*churn + 1 + c.Rng.Intn(3)
+				// large: all but the first `churn` of them get an exit epoch later than penalty epoch + 1, so the correlation
+				// penalty (multiplier 3, about a third of the stake slashed) empties their balance while they are still active
+				size = 2*churn + 5 + c.Rng.Intn(4)
 			}
 			for k := 0; k < int(c.Spec.MAX_ATTESTER_SLASHINGS); k++ {
 				var vs []common.ValidatorIndex
@@ -191,7 +202,11 @@ func init() {
 			expect(c.Stats.Get("validators_slashed") >= c.initialVals/5, &out, "only %d of %d validators slashed", c.Stats.Get("validators_slashed"), c.initialVals)
 			expect(c.Stats.Get("epochs_with_slashing_penalties") >= 1, &out, "no epoch applied correlated slashing penalties")
 			expect(c.Stats.Get("blocks_exit_queue_advanced_twice") >= 1, &out, "no block initiated 2*churn+1 exits at once (max %d)", c.Stats.Get("max_exits_initiated_in_one_block"))
-			expect(c.Stats.Get("slashed_reaching_withdrawable_epoch") >= 1, &out, "no slashed validator reached its withdrawable epoch")
+			if c.Epochs >= 11 {
+				expect(c.Stats.Get("slashed_reaching_withdrawable_epoch") >= 1, &out, "no slashed validator reached its withdrawable epoch")
+				expect(c.Stats.Get("epochs_active_effbal_changed_8_increments") >= 1, &out, "no active validator lost 8 increments of effective balance at one boundary")
+				expect(c.Stats.Get("epochs_proposers_sensitive_to_effbal_change") >= 1, &out, "proposer sampling never depended on the effective-balance update of the boundary")
+			}
 			return
 		},
 	})
